@@ -165,7 +165,7 @@ class BoundCallable:
         actual = BoundCallable.bind(fun, known, *args, **kwargs)
         return fun(*actual.args, **actual.kwargs)
 
-    _BIND_CACHE: ClassVar[dict[Any, ActualArguments]] = {}
+    _BIND_CACHE: ClassVar[dict[Any, tuple[Callable, ActualArguments]]] = {}
     _HIT_COUNT: int = 0
 
     @staticmethod
@@ -181,10 +181,12 @@ class BoundCallable:
             # BoundCallable._HIT_COUNT += 1
             # if BoundCallable._HIT_COUNT % (16 * 1024) == 0:
             #     debug(f'\nHIT {id(fun)} {BoundCallable._HIT_COUNT}')
-            return cached
+            return cached[1]
 
         result = BoundCallable._actual_bind(fun, known, *args, **kwargs)
-        BoundCallable._BIND_CACHE[key] = result
+        # the key is made of ids: keep fun alive with the entry so that its id
+        # cannot be taken by another callable (bound methods are short-lived)
+        BoundCallable._BIND_CACHE[key] = (fun, result)
         return result
 
     @staticmethod
